@@ -54,6 +54,7 @@ static struct {
 	int sink;
 } S;
 static int maxsleeps;
+static void scan_waiters (void);
 static int fine_notes;    /* VERIF_FINE: the cancellation note's operations are interleaved at atomic-operation granularity (random mode only) */
 static waiter *wtab[16]; static int nwtab;
 static int sb_limit = 1000000;    /* O-starve bound, set from the command line */
@@ -326,7 +327,7 @@ static int pre (int actor, const char *label, const char *prev, const char *exp,
 	if (rt_state (t) != F_PARKED) { snprintf (why, whyn, "spec: %s; the real thread is not at a scheduling point (state %d)", label, rt_state (t)); return -1; }
 	if (k && strcmp (k, rt_kind_name (rt_pending (t)->kind)) != 0) {
 		char fb[64];
-		snprintf (why, whyn, "spec expects %s (%s); the real code is about to do %s in %s", label, k, rt_kind_name (rt_pending (t)->kind), rt_fn_name (rt_pending (t)->site, fb, sizeof fb));
+		snprintf (why, whyn, "spec expects %s (%s); the real code is about to do %s in %s", label, k, rt_kind_name (rt_pending (t)->kind), rt_op_fn (rt_pending (t), fb, sizeof fb));
 		return -1;
 	}
 	return 0;
@@ -335,12 +336,13 @@ static void note_step (int t) {
 	const struct rt_op *o = rt_last (t);
 	char fb[64];
 	if ((o->kind == OP_ST || o->kind == OP_LD) && o->addr && rt_stack_owner (o->addr) >= 0) {
-		rt_fn_name (o->site, fb, sizeof fb);
+		rt_op_fn (o, fb, sizeof fb);
 		if (!strcmp (fb, "nsync_wait_n") || !strcmp (fb, "cv_enqueue") || !strcmp (fb, "cv_ready_time")) S.nwrec[rt_stack_owner (o->addr)] = o->addr;
 	}
 	if (o->kind == OP_CAS && o->ok && o->addr) {
+		scan_waiters ();
 		/* a signal/broadcast that bumps a waiter's remove_count has unlinked that waiter: it owes that wait a 0 result */
-		rt_fn_name (o->site, fb, sizeof fb);
+		rt_op_fn (o, fb, sizeof fb);
 		if (!strcmp (fb, "nsync_cv_signal") || !strcmp (fb, "nsync_cv_broadcast")) {
 			int i, j;
 			for (i = 0; i < nwtab; i++) if ((char *) o->addr >= (char *) wtab[i] && (char *) o->addr < (char *) wtab[i] + sizeof (waiter))
@@ -386,7 +388,7 @@ static void finish (int diverged) {
 		char b[300]; size_t o = 0;
 		for (i = 0; i < S.n; i++) if (rt_state (i) != F_DONE) {
 			char fb[64];
-			o += (size_t) snprintf (b + o, sizeof b - o, " t%d:%s@%s", i + 1, rt_state (i) == F_BLOCKED ? "futex" : rt_kind_name (rt_pending (i)->kind), rt_fn_name (rt_pending (i)->site, fb, sizeof fb));
+			o += (size_t) snprintf (b + o, sizeof b - o, " t%d:%s@%s", i + 1, rt_state (i) == F_BLOCKED ? "futex" : rt_kind_name (rt_pending (i)->kind), rt_op_fn (rt_pending (i), fb, sizeof fb));
 		}
 		if (guard >= 200000) rt_violation ("O-prog", "no termination within the step bound (livelock):%s", b);
 		else rt_violation ("O-prog", "threads are blocked for ever with nothing runnable (lost wake-up / deadlock):%s word=0x%x", b, S.mu_freed ? 0 : *(volatile uint32_t *) &S.mu->word);
@@ -403,7 +405,7 @@ static void log_step (int t) {
 	if (!trace) return;
 	fprintf (trace, "{\"t\":%d,\"k\":\"%s\",\"o\":\"%s\",\"a\":%u,\"b\":%u,\"r\":%u,\"ok\":%d,\"mo\":%d,\"fn\":\"%s\",\"w\":%u,\"cw\":%u}\n",
 		 t + 1, rt_kind_name (o->kind), o->addr ? rt_addr_name (o->addr, nb, sizeof nb) : "-", o->a, o->b, o->res, o->ok, o->mo,
-		 rt_fn_name (o->site, fb, sizeof fb), S.mu_freed ? 0 : *(volatile uint32_t *) &S.mu->word, *(volatile uint32_t *) &S.cv->word);
+		 rt_op_fn (o, fb, sizeof fb), S.mu_freed ? 0 : *(volatile uint32_t *) &S.mu->word, *(volatile uint32_t *) &S.cv->word);
 }
 static int run_random (long runs, unsigned seed, const char *init, const char *violdir, const char *prop) {
 	long r, viols = 0, hung = 0, steps_total = 0, nontriv = 0;
